@@ -190,7 +190,31 @@ def first_diff_class(a, b):
     return "length"
 
 
+def run_pipes(case):
+    """The same bytes through a pipe, written in one piece and in several with pauses between them: same picture."""
+    import hashlib
+    from . import c18, c19
+
+    fmt, variant = case["fmt"], case["variant"]
+    data, args, ctrl = c19.base_file(fmt, variant)
+    L = len(data)
+    patterns = {"whole": [], "halves": [L // 2], "first-byte": [1], "last-byte": [L - 1], "thirds": [L // 3, 2 * L // 3], "header": [5, 18]}
+    obs = {"counters": {"pipe_runs": 0}, "viols": [], "sets": {}, "key": "pipes|%s|%s" % (fmt, variant)}
+    seen = {}
+    for nm, cuts in patterns.items():
+        r = c18.piped_chunked(fmt, data, args, [c for c in cuts if 0 < c < L])
+        obs["counters"]["pipe_runs"] += 1
+        seen[nm] = (r["rc"], hashlib.sha256(r["out"] or b"").hexdigest()[:16], len(r["out"] or b""))
+    obs["evaluations"] = len(patterns)
+    if len(set(seen.values())) > 1:
+        obs["viols"].append({"sig": "C12/%s/pipe-write-pattern" % fmt, "detail": {"format": fmt, "variant": variant, "args": args, "input_bytes": L,
+                                                                                  "outcomes": {k: list(v) for k, v in seen.items()}}})
+    return obs
+
+
 def run_case(case):
+    if case["kind"] == "pipes":
+        return run_pipes(case)
     items = build_items(case)
     obs = {"counters": {}, "viols": [], "key": [hashlib.sha1(json.dumps(it, sort_keys=True).encode()).hexdigest() for it in items]}
     seeds = case["hashseeds"]
@@ -273,5 +297,8 @@ def cases(tier, seed):
         yield {"kind": "sharedcfg", "seed": seed * 100069 + b, "n": 24, "hashseeds": hseeds[:3], "sample": False}
     for b in range(1 if tier == "quick" else 8):
         yield {"kind": "cli", "seed": seed * 100057 + b, "n": 24, "hashseeds": hseeds[:3], "sample": False}
+    for fmt, variant in (("pix", "small"), ("hrs", "small"), ("hrs", "default"), ("max", "hdr5"), ("max", "newsroom"), ("mge", "rle"), ("mge", "raw"),
+                         ("rat", "rows"), ("cm3", "one-coded"), ("vef", "t0s")):
+        yield {"kind": "pipes", "fmt": fmt, "variant": variant, "seed": 0, "hashseeds": [0]}
     for b in range(2 if tier == "quick" else 8):
         yield {"kind": "decode", "seed": seed * 100019 + b, "n": 12, "hashseeds": hseeds[:4], "sample": b == 0}
